@@ -15,6 +15,7 @@ import Petl.Reshape
 import Petl.Views
 import Petl.TempFiles
 import Petl.Db
+import Petl.Lazy
 namespace Petl
 
 def opCmp : P String := do
@@ -822,6 +823,22 @@ def opDb : P String := do
   pure (" ".intercalate (ops.map DbOp.show) ++ " # committed=" ++ showTable d.committed ++
         " pending=" ++ (match d.pending with | none => "none" | some p => toString p.length))
 
+/-- lazy <map|filter|look> <k> <table>: first k output rows of the streaming operator and the number
+    of source rows it pulled.  map: append the first cell; filter: keep rows whose first cell is truthy
+    (source = data rows); look: one row of lookahead, appends (prev[0], next[0]) (source incl. header) -/
+def opLazy : P String := do
+  let kind ← tok
+  let k ← pNat
+  let t ← pTable
+  let fst (r : Row) : Val := getCell r 0
+  let ofst (r : Option Row) : Val := match r with | some r => getCell r 0 | none => .none
+  let res ← match kind with
+    | "map" => pure (runLazy (mapT (fun r => r ++ [fst r])) k () t)
+    | "filter" => pure (runLazy (filterT (fun r => (fst r).truthy)) k () t)
+    | "look" => pure (runLazy (lookaheadT (fun p c n => c ++ [.seq false [ofst p, ofst n]])) k (0, none, none) t)
+    | _ => P.fail s!"bad lazy kind {kind}"
+  pure (toString res.2 ++ " " ++ showTable res.1)
+
 def dispatch (op : String) : Option (P String) :=
   match op with
   | "cmp" => some opCmp
@@ -854,6 +871,7 @@ def dispatch (op : String) : Option (P String) :=
   | "mach" => some opMach
   | "tf" => some opTf
   | "db" => some opDb
+  | "lazy" => some opLazy
   | _ => none
 
 end Petl
